@@ -8,6 +8,7 @@ import (
 	"encoding/binary"
 	"encoding/hex"
 	"fmt"
+	"github.com/cosmos/cosmos-sdk/x/bank"
 	"runtime/debug"
 	"strings"
 	"time"
@@ -231,6 +232,7 @@ func (a *App) NewWorld(params types.Params) *World {
 	w.Track("escrow", authtypes.NewModuleAddress(types.RequestAccName))
 	w.Track("deposits", authtypes.NewModuleAddress(types.DepositAccName))
 	w.Track("feecollector", authtypes.NewModuleAddress(authtypes.FeeCollectorName))
+	w.Track("govacc", authtypes.NewModuleAddress("gov"))
 	return w
 }
 
@@ -250,6 +252,9 @@ func (w *World) Track(name string, addr sdk.AccAddress) {
 func (w *World) Fund(name string, addr sdk.AccAddress, amt sdk.Int) {
 	w.Track(name, addr)
 	app := w.a.app
+	if name == "govacc" {
+		app.AccountKeeper.GetModuleAccount(w.ctx, "gov") // a module account of the host, created as such
+	}
 	if app.AccountKeeper.GetAccount(w.ctx, addr) == nil {
 		app.AccountKeeper.SetAccount(w.ctx, app.AccountKeeper.NewAccountWithAddress(w.ctx, addr))
 	}
@@ -307,6 +312,8 @@ type StepResult struct {
 	Callbacks []CallbackRec `json:"callbacks,omitempty"`
 	NewCtxID  string        `json:"new_ctx,omitempty"`
 	WallNs    int64         `json:"-"`
+	TxHash    string        `json:"-"` // hex, of the transaction the step ran in (msg / mod steps)
+	MsgIdx    int64         `json:"-"`
 }
 
 type EventRec struct {
@@ -420,6 +427,7 @@ func (w *World) DeliverMsgTx(msg sdk.Msg, sameTx bool) (res StepResult) {
 		}
 	}
 	w.lastTx, w.lastIdx = append([]byte(nil), txHash...), msgIdx
+	res.TxHash, res.MsgIdx = hexs(txHash), msgIdx
 	cctx, write := w.curCtx().CacheContext()
 	cctx = cctx.WithEventManager(sdk.NewEventManager())
 	cctx = cctx.WithValue(types.TxHash, txHash).WithValue(types.MsgIndex, msgIdx)
@@ -459,6 +467,35 @@ func (w *World) DeliverMsgTx(msg sdk.Msg, sameTx bool) (res StepResult) {
 		}
 	}
 	w.cbLog = nil
+	return
+}
+
+// BankSend runs a bank MsgSend through the bank module's handler inside a cached context.
+func (w *World) BankSend(from, to sdk.AccAddress, amt int64) (res StepResult) {
+	w.cbLog = nil
+	msg := banktypes.NewMsgSend(from, to, sdk.NewCoins(sdk.NewCoin(denom, sdk.NewInt(amt))))
+	if err := msg.ValidateBasic(); err != nil {
+		res.Rejected, res.Err = true, err.Error()
+		return
+	}
+	cctx, write := w.curCtx().CacheContext()
+	cctx = cctx.WithEventManager(sdk.NewEventManager())
+	func() {
+		defer func() {
+			if r := recover(); r != nil {
+				res.Panic = panicClass(r) + ": " + fmt.Sprint(r)
+				res.PanicSite = panicSite(string(debug.Stack()))
+			}
+		}()
+		if _, err := bank.NewHandler(w.a.app.BankKeeper)(cctx, msg); err != nil {
+			res.Err, res.ErrCode = err.Error(), errCode(err)
+			return
+		}
+		res.OK = true
+	}()
+	if res.OK {
+		write()
+	}
 	return
 }
 
@@ -589,6 +626,7 @@ func unhexAddrs(hs []string) []sdk.AccAddress {
 func (w *World) DeliverModOp(op ModOp) (res StepResult) {
 	w.cbLog = nil
 	txHash := w.nextTxHash()
+	res.TxHash, res.MsgIdx = hexs(txHash), 0
 	cctx, write := w.curCtx().CacheContext()
 	cctx = cctx.WithEventManager(sdk.NewEventManager())
 	cctx = cctx.WithValue(types.TxHash, txHash).WithValue(types.MsgIndex, int64(0))
@@ -610,6 +648,21 @@ func (w *World) DeliverModOp(op ModOp) (res StepResult) {
 			var id tmbytes.HexBytes
 			id, err = k.CreateRequestContext(cctx, op.Service, unhexAddrs(op.Providers), unhex(op.Consumer), op.Input,
 				cap, op.Timeout, op.Super, op.Repeated, op.Freq, op.Total, types.RUNNING, op.Threshold, op.Module)
+			if err == nil {
+				res.NewCtxID = hexs(id)
+			}
+		case "create2":
+			// a module that asks twice while it handles one message: both calls run under the same
+			// transaction hash and message index (the second context takes the place of the first)
+			var cap sdk.Coins
+			if op.FeeCap > 0 {
+				cap = sdk.NewCoins(sdk.NewCoin(denom, sdk.NewInt(op.FeeCap)))
+			}
+			var id tmbytes.HexBytes
+			for i := 0; i < 2 && err == nil; i++ {
+				id, err = k.CreateRequestContext(cctx, op.Service, unhexAddrs(op.Providers), unhex(op.Consumer), op.Input,
+					cap, op.Timeout+int64(i), op.Super, op.Repeated, op.Freq+uint64(i), op.Total, types.RUNNING, op.Threshold, op.Module)
+			}
 			if err == nil {
 				res.NewCtxID = hexs(id)
 			}
